@@ -172,9 +172,9 @@ def _intersect3d(ray1, ray2, tol):
     d_scale = linalg.vector_magnitude(ray1.d) * linalg.vector_magnitude(ray2.d)
     if linalg.vector_magnitude(d_cross) <= tol * d_scale:
         tmp1 = linalg.vector_sum(ray2.p, ray1.p, coeff=-1.0)
-        t1 = 0.0 if abs(ray1.d[0]) < tol else tmp1[0] / ray1.d[0]
+        t1 = 0.0 if d_scale == 0.0 else linalg.vector_dot(tmp1, ray1.d) / linalg.vector_dot(ray1.d, ray1.d)
         tmp2 = linalg.vector_sum(ray1.p, ray2.p, coeff=-1.0)
-        t2 = 0.0 if abs(ray2.d[0]) < tol else tmp2[0] / ray2.d[0]
+        t2 = 0.0 if d_scale == 0.0 else linalg.vector_dot(tmp2, ray2.d) / linalg.vector_dot(ray2.d, ray2.d)
         return t1, t2, RayIntersection.COLINEAR
 
     # Find common values
